@@ -46,7 +46,8 @@ K_B58LEN = 'C05/addr-to-script/base58-payload-length-unchecked'
 K_PARSE_WITVER = 'C05/address-object/parse-drops-witness-version'
 K_OBJ_TYPE = 'C05/address-object/output-uses-object-script-type-not-address-type'
 K_FOREIGN_OBJ = 'C05/foreign-network/address-object-or-hdkey-adopted-by-add-output'
-K_SHORTPROG = 'C05/script-to-addr/witness-program-2-to-4-bytes-misencoded'
+K_SHORTPROG = 'C05/script-to-addr/witness-program-misread-as-version-length-header'
+K_PROGKEY = 'C05/script-to-addr/witness-program-that-is-a-public-key-reported-as-p2wpkh-of-key'
 
 NETS = chain.NETWORK_NAMES
 STD = ('p2pkh', 'p2sh', 'p2wpkh', 'p2wsh', 'p2tr')
@@ -258,6 +259,13 @@ def classify_dest(case, fail):
         rest = [f for f in eval_dest(c2)[1] if f.check == fail.check]
         if not rest or all(classify_dest(c2, f) == K_PARSE_WITVER for f in rest):
             return K_SHORTPROG
+    keyish = _keyish(prog) if case['enc'] == 'segwit' else None
+    if fail.check == 'inverse' and keyish:
+        if fail.observed == codec.segwit_encode(hrp, 0, ec.hash160(keyish)):
+            # ablation: the same destination with a byte that is no key prefix
+            c2 = dict(case, payload=prog.replace(keyish, b'\x05' + keyish[1:]).hex())
+            if not any(f.check == 'inverse' for f in eval_dest(c2)[1]):
+                return K_PROGKEY
     if fail.check == 'address' and case.get('src', 'string').startswith('addr_parse') and case['enc'] == 'segwit' and case['witver'] >= 1:
         if 2 <= len(prog) <= 40 and fail.observed == _v0_string(hrp, prog) and heals('src_object'):
             return K_PARSE_WITVER
@@ -267,10 +275,33 @@ def classify_dest(case, fail):
 def _short_shape(hrp, prog, observed):
     """observed is a bech32-looking string of hrp whose program characters encode only prog[2:] (the first two program
     bytes were consumed as a <version><length> header); the version symbol and checksum are whatever came out"""
-    if not isinstance(observed, str) or not observed.startswith(hrp + '1') or not (2 <= len(prog) <= 4) or prog[1] != len(prog) - 2:
+    if not isinstance(observed, str) or not observed.startswith(hrp + '1') or len(prog) in (20, 32, 40) or not (2 <= len(prog) <= 40) or \
+            prog[1] != len(prog) - 2:
         return False
     body = observed[len(hrp) + 2:-6]
     return body == ''.join(codec.CHARSET[d] for d in codec.convertbits(prog[2:], 8, 5))
+
+
+def _keyish(prog):
+    """the first 33 bytes inside a witness program that a data-typing heuristic would take for a compressed public key:
+    the program itself, or a 33-byte push found when the program is read as a script (on the curve or not)"""
+    prog = bytes(prog)
+    if len(prog) == 33 and prog[0] in (2, 3):
+        return prog
+    i = 0
+    while i < len(prog):                       # lenient push tokenisation: stop at the first truncated push
+        op = prog[i]
+        i += 1
+        if 1 <= op <= 75:
+            d = prog[i:i + op]
+            if len(d) != op:
+                break
+            if op == 33 and d[0] in (2, 3):
+                return d
+            i += op
+        elif op in (0x4c, 0x4d, 0x4e):
+            break
+    return None
 
 
 def heals_badlen(case):
@@ -360,6 +391,15 @@ def classify_script(case, fail):
         st, fl = eval_script(c2)
         if not any(f.check == 'address' for f in fl):
             return K_SHORTPROG
+    keyish = _keyish(payload) if rt == 'witness_unknown' else None
+    if fail.check == 'address' and keyish:
+        # shape: the program is (or is one push of) 33 bytes with a compressed-key prefix and the P2WPKH address of those bytes is reported
+        if fail.observed == chain.address_segwit(N, 0, ec.hash160(keyish)):
+            # ablation: the same program with a prefix byte that is no key prefix gets no (or the right) address
+            c2 = dict(case, spk=chain.script_witness(ver, payload.replace(keyish, b'\x05' + keyish[1:])).hex())
+            st, fl = eval_script(c2)
+            if not any(f.check == 'address' for f in fl):
+                return K_PROGKEY
     return None
 
 
@@ -673,12 +713,16 @@ def run_shard(spec, col):
             judge_dest(c, col)
         elif r < 0.40:                                       # witness version x program length 2..40
             v = rnd.randint(0, 16)
-            n = rnd.choice([2, 3, 4, 5, 16, 19, 20, 21, 31, 32, 33, 39, 40, rnd.randint(2, 40)])
+            n = rnd.choice([2, 3, 4, 5, 16, 19, 20, 21, 31, 32, 33, 34, 39, 40, rnd.randint(2, 40)])
             if v == 0 and n not in (20, 32):
                 n = rnd.choice([20, 32])                     # BIP173: v0 programs are 20 or 32 bytes (anything else is not an address)
             p = rnd.randbytes(n)
-            if 2 <= n <= 4 and v >= 1 and rnd.random() < 0.5:
+            if n not in (20, 32, 40) and v >= 1 and rnd.random() < (0.5 if n <= 4 else 0.15):
                 p = p[:1] + bytes([n - 2]) + p[2:]           # a program whose 2nd byte equals the number of bytes after it (looks like <ver><len> header)
+            elif n in (33, 34) and v >= 1 and rnd.random() < 0.5:
+                p = bytes([rnd.choice([2, 3])]) + rnd.randbytes(32)      # a program that looks like a compressed public key (on the curve or not)
+                if n == 34:
+                    p = b'\x21' + p
             judge_dest({'kind': 'dest', 'network': N, 'enc': 'segwit', 'witver': v, 'payload': p.hex(), 'via': via,
                         'src': rnd.choice(['string', 'string', 'addr_parse'])}, col)
             judge_script({'kind': 'script', 'network': N, 'spk': chain.script_witness(v, p).hex(), 'strict': rnd.random() < 0.5, 'via': via}, col)
